@@ -87,34 +87,58 @@ def build_all():
 # ------------------------------------------------------------------ sharding
 
 
-def _run_chunk(binary, engine, sd, a, b, tier, timeout, extra_args=(), env=None):
+def _limit_as(n):
+    def f():
+        import resource
+
+        resource.setrlimit(resource.RLIMIT_AS, (n, n))
+
+    return f
+
+
+def _run_chunk(binary, engine, sd, a, b, tier, timeout, extra_args=(), env=None, rlimit_as=None):
     cmd = [binary, engine, "--seed", str(sd), "--from", str(a), "--to", str(b), "--tier", tier]
     cmd += list(extra_args)
+    e = dict(env if env is not None else os.environ)
+    e["VERIF_PROGRESS"] = "1"
+    timed_out = False
+    p = subprocess.Popen(
+        cmd,
+        stdout=subprocess.PIPE,
+        stderr=subprocess.PIPE,
+        text=True,
+        env=e,
+        preexec_fn=_limit_as(rlimit_as) if rlimit_as else None,
+    )
     try:
-        r = subprocess.run(cmd, capture_output=True, text=True, timeout=timeout, env=env)
+        out, err = p.communicate(timeout=timeout)
     except subprocess.TimeoutExpired:
-        return {"timeout": True, "from": a, "to": b, "lines": []}
-    lines = []
-    for line in r.stdout.splitlines():
+        p.kill()
+        out, err = p.communicate()
+        timed_out = True
+    lines, last_begin = [], None
+    for line in out.splitlines():
         line = line.strip()
         if line.startswith("{"):
             try:
-                lines.append(json.loads(line))
+                rec = json.loads(line)
             except json.JSONDecodeError:
-                raise HarnessError(f"unparsable worker output: {line[:200]}")
-    if r.returncode not in (0, 1) or not any(x.get("type") == "summary" for x in lines):
-        return {
-            "crashed": True,
-            "from": a,
-            "to": b,
-            "lines": lines,
-            "rc": r.returncode,
-            "stderr": r.stderr[-2000:],
-        }
-    return {"from": a, "to": b, "lines": lines}
+                continue  # a killed worker may leave a torn last line
+            if rec.get("type") == "begin":
+                last_begin = rec["run"]
+            else:
+                lines.append(rec)
+    res = {"from": a, "to": b, "lines": lines, "in_flight": last_begin}
+    if timed_out:
+        res["timeout"] = True
+    elif p.returncode not in (0, 1) or not any(x.get("type") == "summary" for x in lines):
+        res["crashed"] = True
+        res["rc"] = p.returncode
+        res["stderr"] = err[-2000:]
+    return res
 
 
-def shard(engine, runs, tier, build_name="default", chunk=None, timeout=900, extra_args=(), env=None, start=0):
+def shard(engine, runs, tier, build_name="default", chunk=None, timeout=900, extra_args=(), env=None, start=0, rlimit_as=None):
     """Runs `runs` seeded cases of `engine`, returns (summaries, violations, anomalies)."""
     binary = sim_bin(build_name)
     sd = seed()
@@ -123,12 +147,13 @@ def shard(engine, runs, tier, build_name="default", chunk=None, timeout=900, ext
     ranges = [(a, min(a + chunk, start + runs)) for a in range(start, start + runs, chunk)]
     with ThreadPoolExecutor(max_workers=WORKERS) as ex:
         results = list(
-            ex.map(lambda ab: _run_chunk(binary, engine, sd, ab[0], ab[1], tier, timeout, extra_args, env), ranges)
+            ex.map(lambda ab: _run_chunk(binary, engine, sd, ab[0], ab[1], tier, timeout, extra_args, env, rlimit_as), ranges)
         )
     summaries, violations, anomalies = [], [], []
     for res in results:
         if res.get("timeout") or res.get("crashed"):
             anomalies.append(res)
+            continue
         for rec in res["lines"]:
             if rec.get("type") == "summary":
                 summaries.append(rec)
@@ -137,28 +162,46 @@ def shard(engine, runs, tier, build_name="default", chunk=None, timeout=900, ext
     return summaries, violations, anomalies
 
 
-def isolate_anomaly(engine, res, tier, build_name="default", per_run_timeout=60, extra_args=(), env=None):
-    """A chunk hung or the worker died (abort, stack overflow, OOM): find the run."""
+def gen_only(binary, engine, sd, i, tier, extra_args=(), env=None):
+    g = subprocess.run(
+        [binary, engine, "--seed", str(sd), "--from", str(i), "--to", str(i + 1), "--tier", tier, "--gen-only"]
+        + list(extra_args),
+        capture_output=True,
+        text=True,
+        timeout=120,
+        env=env,
+    )
+    for line in g.stdout.splitlines():
+        if line.startswith("{"):
+            return json.loads(line).get("case")
+    return None
+
+
+def isolate_anomaly(engine, res, tier, build_name="default", per_run_timeout=60, extra_args=(), env=None, rlimit_as=None):
+    """A chunk stalled or the worker died (abort, stack overflow, memory limit): the worker's
+    progress markers name the in-flight run; confirm it alone with a fresh (longer) limit
+    before it is believed, then carry on with the rest of the chunk."""
     binary = sim_bin(build_name)
     sd = seed()
-    out = []
-    for i in range(res["from"], res["to"]):
-        r = _run_chunk(binary, engine, sd, i, i + 1, tier, per_run_timeout, extra_args, env)
-        if r.get("timeout") or r.get("crashed"):
-            kind = "hang" if r.get("timeout") else f"abort-rc{r.get('rc')}"
-            # ask the generator for the case without executing it
-            g = subprocess.run(
-                [binary, engine, "--seed", str(sd), "--from", str(i), "--to", str(i + 1), "--tier", tier, "--gen-only"]
-                + list(extra_args),
-                capture_output=True,
-                text=True,
-                timeout=120,
-                env=env,
-            )
-            case = None
-            for line in g.stdout.splitlines():
-                if line.startswith("{"):
-                    case = json.loads(line).get("case")
+    out, summaries = [], []
+    lo, hi = res["from"], res["to"]
+    cur = res
+    while True:
+        out.extend(x for x in cur["lines"] if x.get("type") == "violation")
+        summaries.extend(x for x in cur["lines"] if x.get("type") == "summary")
+        if not (cur.get("timeout") or cur.get("crashed")):
+            break
+        i = cur.get("in_flight")
+        if i is None:
+            raise HarnessError(f"worker for {engine} {lo}..{hi} failed before its first run: {cur.get('stderr')}")
+        # runs before i in this chunk completed but their summary is lost: redo them (cheap)
+        if i > lo:
+            redo = _run_chunk(binary, engine, sd, lo, i, tier, per_run_timeout * 10, extra_args, env, rlimit_as)
+            out.extend(x for x in redo["lines"] if x.get("type") == "violation")
+            summaries.extend(x for x in redo["lines"] if x.get("type") == "summary")
+        alone = _run_chunk(binary, engine, sd, i, i + 1, tier, per_run_timeout, extra_args, env, rlimit_as)
+        if alone.get("timeout") or alone.get("crashed"):
+            kind = "hang" if alone.get("timeout") else f"abort-rc{alone.get('rc')}"
             out.append(
                 {
                     "type": "violation",
@@ -166,14 +209,19 @@ def isolate_anomaly(engine, res, tier, build_name="default", per_run_timeout=60,
                     "seed": sd,
                     "run": i,
                     "key": f"{engine.upper()}/process/{kind}",
-                    "detail": (r.get("stderr") or "no END within the deadline")[-600:],
-                    "case": case,
+                    "detail": (alone.get("stderr") or f"run did not finish within {per_run_timeout}s on its own")[-600:],
+                    "case": gen_only(binary, engine, sd, i, tier, extra_args, env),
                     "process_level": True,
                 }
             )
         else:
-            out.extend(x for x in r["lines"] if x.get("type") == "violation")
-    return out
+            out.extend(x for x in alone["lines"] if x.get("type") == "violation")
+            summaries.extend(x for x in alone["lines"] if x.get("type") == "summary")
+        lo = i + 1
+        if lo >= hi:
+            break
+        cur = _run_chunk(binary, engine, sd, lo, hi, tier, per_run_timeout * 10, extra_args, env, rlimit_as)
+    return out, summaries
 
 
 # ------------------------------------------------------------------ known findings
@@ -224,9 +272,9 @@ def replay_file(path, timeout=300):
     rec = json.load(open(path))
     engine = rec["engine"]
     build_name = rec.get("build", "default")
-    binary = sim_bin(build_name)
-    if not os.path.exists(binary):
-        build(build_name)
+    binary = build(build_name)  # always against /repo's current tree
+    if rec.get("process_level"):
+        timeout = min(timeout, 90)
     try:
         r = subprocess.run(
             [binary, engine, "--replay", path], capture_output=True, text=True, timeout=timeout, env=rec_env(rec)
@@ -355,12 +403,24 @@ SIM_CHECKS = {
     "C01": [dict(engine="c01", quick=30000, thorough=500000, build="default", shim=True)],
     "C02": [dict(engine="c02", quick=24000, thorough=400000, build="default")],
     "C03": [dict(engine="c03", quick=24000, thorough=400000, build="default")],
+    "C05": [
+        dict(engine="c05r", quick=20000, thorough=300000, build="default", rlimit_as=4 << 30, chunk_timeout=120),
+        dict(engine="c05r", quick=20000, thorough=300000, build="plain", rlimit_as=4 << 30, chunk_timeout=120),
+        dict(engine="c05a", quick=60000, thorough=1200000, build="plain", rlimit_as=4 << 30, chunk_timeout=120),
+    ],
     "C06": [dict(engine="c06", quick=60000, thorough=1500000, build="default")],
     "C15": [dict(engine="c15", quick=40000, thorough=600000, build="default")],
     "C18": [dict(engine="c18", quick=30000, thorough=500000, build="default")],
 }
 
 RULES = {
+    "C05": "case = (stored bytes = real-map window or generated map, <= 160 objects, after 0-4 seeded storage faults; "
+    "realistic domain: dropped/duplicated/swapped/shuffled lines and editor-magnitude number tweaks, run on the "
+    "overflow-checked and the plain build; adversarial domain: additionally truncation, bit flips, byte overwrites, "
+    "numbers at the parser limits, NaN/inf tokens, re-encoding, noise, run on the plain build) + seeded target modes, "
+    "settings, score specs and nth pattern. Every public call of the list is unwound separately; worker processes run "
+    "under RLIMIT_AS 4 GiB with a watchdog, a stalled or dead worker is bisected to the run. Non-trivial = at least one "
+    "storage fault; distinct = distinct (fault list, targets, size class).",
     "C06": "case = (stored bytes = generated or real-window .osu text of any mode/version after 0-4 seeded storage faults: "
     "truncation, bit flip, byte overwrite, dropped/duplicated/swapped/shuffled lines, corrupted numeric token, BOM, "
     "UTF-16LE/BE re-encoding, invalid UTF-8, CRLF, noise; reader plan = fill_buf window sizes, EINTR offsets, hard error "
@@ -410,9 +470,12 @@ def run_sim_check(prop, tier, level="exploration", extra_cov=None):
         runs = c["quick"] if tier == "quick" else c["thorough"]
         runs = int(os.environ.get("VERIF_RUNS", runs))
         env = shim_env() if c.get("shim") else None
-        sums, vios, anomalies = shard(engine, runs, tier, b, env=env)
+        rl = c.get("rlimit_as")
+        sums, vios, anomalies = shard(engine, runs, tier, b, env=env, rlimit_as=rl, timeout=c.get("chunk_timeout", 900))
         for an in anomalies:
-            vios.extend(isolate_anomaly(engine, an, tier, b, env=env))
+            v2, s2 = isolate_anomaly(engine, an, tier, b, env=env, rlimit_as=rl)
+            vios.extend(v2)
+            sums.extend(s2)
         for v in vios:
             v["build"] = b
             if c.get("shim"):
